@@ -55,6 +55,10 @@ pub struct SPlan {
     pub rp_suffix: String,
     /// method and path of a ping request (empty = GET and the usual path): the markers and the
     /// ping host answer whatever is asked, the speedtest and reverse-proxy paths included
+    /// the client's own X-Original-Protocol on a reverse-proxied request (empty = none): what the
+    /// origin is told is the endpoint's statement, not the client's
+    #[serde(default)]
+    pub rp_claims_protocol: String,
     #[serde(default)]
     pub ping_method: String,
     #[serde(default)]
@@ -161,6 +165,7 @@ impl Scenario for Services {
             seg: CutP::draw(&mut rng, 16 * 1024),
             payload_len: rng.size(0, 32 * 1024) as usize,
             rp_suffix: (*rng.pick(&["", "", "?q=how+much&page=2", "?", "/deeper/path.txt", "?a=%20b&c=d/e", ";v=1?x=y"])).to_string(),
+            rp_claims_protocol: if rng.chance(1, 3) { (*rng.pick(&["HTTP3", "HTTP2", "QUIC", "", "http/0.9"])).to_string() } else { String::new() },
             ping_method: if rng.chance(1, 2) { String::new() } else { (*rng.pick(&["GET", "HEAD", "POST", "PUT", "OPTIONS", "DELETE"])).to_string() },
             ping_path: if rng.chance(1, 2) {
                 String::new()
@@ -245,6 +250,9 @@ fn request_of(plan: &SPlan) -> (String, String, String, Vec<(String, String)>, V
         }
         Svc::SpeedOther(m, p, via) => (speed_sni(*via), m.clone(), format!("{}{}", prefix(*via), p), headers, vec![]),
         Svc::ReverseProxy(by_path) => {
+            if !plan.rp_claims_protocol.is_empty() {
+                headers.push(("x-original-protocol".into(), plan.rp_claims_protocol.clone()));
+            }
             if *by_path {
                 headers.push(("upgrade".into(), "websocket".into()));
                 headers.push(("connection".into(), "Upgrade".into()));
@@ -795,6 +803,13 @@ fn judge(plan: &SPlan, o: &Obs, out: &mut Outcome) {
             let head = String::from_utf8_lossy(&o.origin_head).to_ascii_lowercase();
             if !head.contains("x-original-protocol: http1") {
                 out.violate("C18", format!("services:{}:no-x-original-protocol", svc), head.clone());
+            }
+            if head.matches("x-original-protocol:").count() != 1 {
+                out.violate(
+                    "C18",
+                    format!("services:{}:x-original-protocol-not-the-endpoint's-alone", svc),
+                    format!("the client claimed {:?}; the origin was told: {}", plan.rp_claims_protocol, head),
+                );
             }
             if !head.starts_with("get ") || !head.contains(" http/1.1\r\n") {
                 out.violate("C18", format!("services:{}:not-http1-request", svc), head.clone());
